@@ -1109,3 +1109,17 @@ Theorem refuted_shallower_older :
   map (fun f => (d_level f, d_entries f)) (disk s) = [(2, [mkS ka 0 (Some [0]); mkS kx 0 (Some [1])])] /\
   lost_log (eng s) = false /\ cget s kx = Some [2] /\ cget (creopen s true) kx = Some [1].
 Proof. vm_compute. auto 6. Qed.
+
+(* ---------- the concrete reading of a directory is [read] under the name order ---------- *)
+
+(* what a database opened on the files alone reads = [read] with the tables consulted in the
+   reverse of the file-name order; for every reachable state (files ascending) *)
+Theorem disk_read_as_read : forall c k ops key,
+  let s := crun c k ops in
+  disk_read s key = read (map s_entries (rev (sst_sort (map d_sst (disk s))))) key.
+Proof.
+  intros. unfold disk_read, ssts_read. apply ssts_get_read.
+  pose proof (co_disk _ (reachable_files_sorted c k ops)) as H. fold s in H.
+  rewrite Forall_forall in *. intros t Ht. apply in_rev in Ht. apply (proj1 (sst_sort_in' _ _)) in Ht.
+  apply in_map_iff in Ht. destruct Ht as (f & <- & Hf). apply H in Hf. exact Hf.
+Qed.
